@@ -28,9 +28,10 @@ struct QmailEnv {
       k.put_fifo("/var/qmail/queue/lock/trigger", 0622, UID_QMAILS, GID_QMAIL);
     }
     static const char *progs[] = { "qmail-queue", "qmail-send", "qmail-clean", "qmail-local", "qmail-lspawn", "qmail-rspawn", "qmail-remote", "qmail-getpw", "qmail-smtpd", "qmail-qmtpd",
-                                   "qmail-qmqpd", "qmail-pop3d", "qmail-popup", "qmail-inject", "qmail-newu", "qmail-newmrh", "qmail-start", "splogger", "forward", "condredirect", "bouncesaying", "preline", "except" };
+                                   "qmail-qmqpd", "qmail-pop3d", "qmail-popup", "qmail-inject", "qmail-newu", "qmail-newmrh", "qmail-start", "splogger", "forward", "condredirect", "bouncesaying", "preline", "except", "qreceipt", "qmail-pw2u", "qbiff", "qmail-showctl", "qmail-qread", "qmail-qstat", "qmail-tcpto", "qmail-tcpok", "maildir2mbox", "predate", "datemail", "mailsubj", "sendmail", "tcp-env" };
     for (auto p : progs) { w.exectab[std::string("/var/qmail/bin/") + p] = cfg.srcdir + "/" + p; w.exectab[p] = cfg.srcdir + "/" + p; }
-    w.base_env = { "PATH=/var/qmail/bin:/bin", "ASAN_OPTIONS=detect_leaks=0:abort_on_error=1:verify_asan_link_order=0" };
+    w.san_log_prefix = cfg.outdir + "/san";
+    w.base_env = { "PATH=/var/qmail/bin:/bin", "ASAN_OPTIONS=detect_leaks=0:abort_on_error=1:verify_asan_link_order=0:log_path=" + w.san_log_prefix, "UBSAN_OPTIONS=print_stacktrace=1:log_path=" + w.san_log_prefix };
     // everything created from now on (message files) takes the lowest free inode number
   }
   static std::string messpath(long n) { return "/var/qmail/queue/mess/" + std::to_string(n % SPLIT) + "/" + std::to_string(n); }
